@@ -61,7 +61,10 @@ Stmts == <<
   Asg("c", Dy(":-", Var("a"), Lit(L(<<S(<<113, 113>>), I(1), I(0)>>)))), Asg("e", Dy(":-", Var("e"), Lit(L(<<Y(<<122>>), I(0), I(0)>>)))),
   Asg("d", Dy("_", Lit(I(1)), Var("a"))), Asg("d", Dy(":-", Var("d"), Lit(L(<<S(<<119>>), I(0), I(0)>>)))),
   \* module switches: the SAME statement texts are evaluated before, inside and after a module
-  [k |-> "modin"], [k |-> "modout"], Asg("a", Dy("+", Var("a"), Lit(I(1)))), Ex(Var("a"))
+  [k |-> "modin"], [k |-> "modout"], Asg("a", Dy("+", Var("a"), Lit(I(1)))), Ex(Var("a")),
+  \* a statement that FAILS inside a user function with a declared local named like a global (e1::{[a];a::[10 20 30];a@x} in the
+  \* prelude, index out of range): the error reaches the top level and the variable state is what it was
+  [k |-> "fail", src |-> "e1(9)"], [k |-> "fail", src |-> "b::e1(7)"]
 >>
 
 \* Variable state = three scopes: the globals defined before the module (env), the module's own names (menv, written
@@ -82,7 +85,7 @@ Snap(g, m, p, h) == [g |-> Bound(g), m |-> Bound(m), p |-> Bound(p), ph |-> h]
 
 Init == env = [m \in Names |-> Unbound] /\ menv = env /\ penv = env /\ ph = 0 /\ hist = <<>> /\ n = 0
 
-Value(s) == IF s.k \in {"modin", "modout"} THEN I(0) ELSE EvalX(s.e, Bound(Eff(env, menv, penv, ph)))
+Value(s) == IF s.k \in {"modin", "modout", "fail"} THEN I(0) ELSE EvalX(s.e, Bound(Eff(env, menv, penv, ph)))
 
 Exec(i) ==
   /\ n < MaxLen /\ n' = n + 1
